@@ -39,6 +39,8 @@ def cases(tier):
                     # the context-reading call is a default argument of the called task (evaluated in that job's environment)
                     out.append({"ctxs": list(combo), "mode": "seq", "shallow": False, "direct": "default-arg"})
                     out.append({"ctxs": list(combo), "mode": "split", "shallow": False, "direct": "default-arg"})
+                    # the same under a non-empty configured root context (every job then has a context hash to inherit)
+                    out.append({"ctxs": list(combo), "mode": "seq", "shallow": False, "direct": "default-arg", "root_ctx": True})
                 # somebody tags the recorded call nodes between two executions (`redun tag add <call_hash> reviewed=true`)
                 if n == 2:
                     out.append({"ctxs": list(combo), "mode": "split", "shallow": shallow, "tag_between": True})
@@ -55,7 +57,7 @@ def scenario(case, prefix):
 
     from engine import evloop
 
-    env = evloop.Env(prefix)
+    env = evloop.Env(prefix, context={"project": "x"} if case.get("root_ctx") else None)
     try:
         outs = []
         if case["mode"] == "seq":
@@ -94,7 +96,7 @@ def explore_case(arg):
         if res["got"] != want:
             i = next((k for k, (g, w) in enumerate(zip(res["got"], want)) if g != w), 0)
             prev = case["ctxs"][:i]
-            sig = f"shared-across-contexts:{(str(case.get('direct')) + ':').replace('True', 'direct') if case.get('direct') else ''}{'tagged:' if case.get('tag_between') else ''}{case['mode']}:{'shallow' if case['shallow'] else 'full'}:call={case['ctxs'][i]}:after={'+'.join(prev) or '-'}"
+            sig = f"shared-across-contexts:{(str(case.get('direct')) + ':').replace('True', 'direct') if case.get('direct') else ''}{'tagged:' if case.get('tag_between') else ''}{'rootctx:' if case.get('root_ctx') else ''}{case['mode']}:{'shallow' if case['shallow'] else 'full'}:call={case['ctxs'][i]}:after={'+'.join(prev) or '-'}"
             viol.append((sig, {"case": case, "choices": choices},
                          f"{case}: call #{i} with context '{case['ctxs'][i]}' returned {res['got'][i] if i < len(res['got']) else res}, expected {want[i]} (all: {res['got']})"))
 
